@@ -40,7 +40,9 @@ func (g *Valid) rowCount(bound map[Ty][]string) *E {
 	if l := bound[TInt]; len(l) > 0 && g.Rng.Intn(3) == 0 {
 		return Name(l[g.Rng.Intn(len(l))])
 	}
-	switch g.Rng.Intn(6) {
+	switch g.Rng.Intn(9) {
+	case 6:
+		return Num([]string{"18446744073709551615", "18446744073709551616", "99999999999999999999999999", "9223372036854775808", "0xffffffffffffffff", "000000000000000000000000000000007"}[g.Rng.Intn(6)])
 	case 0:
 		return Num("0x10")
 	case 1:
@@ -134,7 +136,9 @@ func (g *Valid) Pipe(nops, depth, joinDepth int, bound map[Ty][]string) *Pipe {
 							bn[n] = true
 						}
 					}
-					x := joinQualify(eg.Gen(TBool, g.Rng.Intn(depth+1)), bn, g.Rng)
+					jeg := *eg
+					jeg.Agg = g.Rng.Intn(3) == 0 // built-ins such as countif are legal inside a join condition too
+					x := joinQualify(jeg.Gen(TBool, g.Rng.Intn(depth+1)), bn, g.Rng)
 					op.Conds = append(op.Conds, Parenthesize(x, nil))
 				}
 			}
